@@ -1,6 +1,7 @@
 package wire
 
 import (
+	"io"
 	"fmt"
 	"net"
 	"time"
@@ -78,6 +79,14 @@ type streamSide struct {
 	// timeout.  A timeout is not a fault of the stream: nothing may be lost.
 	rdDeadlineMs int
 	timeouts     int
+	// hang-up: this side's application closes its connection as soon as
+	// hangUpWhen() holds (it has written and received everything and the peer
+	// has finished writing); what it wrote last may still be on its way, so the
+	// peer can meet the end of the stream in the same read as the last bytes.
+	hangUpWhen func() bool
+	hungUp     *bool // set once this side has closed
+	peerHungUp *bool // set once the peer has closed: EOF is then the proper end
+	endReads   int
 	ending   *bool
 }
 
@@ -109,10 +118,14 @@ func (sd *streamSide) start(c *harness.Ctx, conn net.Conn, prop string) {
 			}
 		}
 		sd.wrDone = true
+		sd.maybeHangUp(c, conn)
 	})
 	s.Go(sd.name+"/reader", func() {
 		buf := make([]byte, sd.rdBuf)
 		for {
+			if sd.hungUp != nil && *sd.hungUp {
+				return // this side closed the connection itself
+			}
 			if sd.rdDeadlineMs > 0 {
 				if err := conn.SetReadDeadline(time.Now().Add(msec(sd.rdDeadlineMs))); err != nil {
 					c.Violate(prop+"/set-read-deadline-failed", "%s SetReadDeadline: %v", sd.name, err)
@@ -148,6 +161,23 @@ func (sd *streamSide) start(c *harness.Ctx, conn net.Conn, prop string) {
 					return
 				}
 			}
+			if n > 0 {
+				sd.maybeHangUp(c, conn)
+			}
+			if err != nil && sd.hungUp != nil && *sd.hungUp {
+				return // this side closed the connection itself
+			}
+			if err == io.EOF && sd.peerHungUp != nil && *sd.peerHungUp {
+				// the peer hung up: the stream ends here.  Everything it wrote
+				// must be readable: an application that reads on while data keeps
+				// coming gets all of it (completeness is judged by the run)
+				if n == 0 {
+					if sd.endReads++; sd.endReads >= 3 {
+						return
+					}
+				}
+				continue
+			}
 			if err != nil {
 				sd.rdErr = err
 				c.Violate(prop+"/read-error", "%s Read failed with %v after %d of %d bytes on a healthy connection", sd.name, err, sd.gotIn, sd.expectIn)
@@ -155,6 +185,15 @@ func (sd *streamSide) start(c *harness.Ctx, conn net.Conn, prop string) {
 			}
 		}
 	})
+}
+
+func (sd *streamSide) maybeHangUp(c *harness.Ctx, conn net.Conn) {
+	if sd.hangUpWhen == nil || *sd.hungUp || !sd.hangUpWhen() {
+		return
+	}
+	*sd.hungUp = true
+	c.S.Count("fault.peer-hangs-up-with-data-in-flight", 1)
+	conn.Close()
 }
 
 func (sd *streamSide) complete() bool { return sd.wrDone && sd.gotIn == sd.expectIn }
@@ -186,6 +225,17 @@ func runC01(c *harness.Ctx) {
 	cs := &streamSide{name: "c", dirOut: 0, dirIn: 1, plan: drawWrites(c, "cw", 6), rdBuf: []int{32768, 1, 7, 1427, 4096}[t.Draw("c.rdbuf", 5)], ending: &ending}
 	ss := &streamSide{name: "s", dirOut: 1, dirIn: 0, plan: drawWrites(c, "sw", 6), rdBuf: []int{32768, 1, 7, 1427, 4096}[t.Draw("s.rdbuf", 5)], ending: &ending}
 	cs.expectIn, ss.expectIn = planTotal(ss.plan), planTotal(cs.plan)
+	if k := t.Draw("hangup", 6); k >= 4 {
+		// one side hangs up when it is done; the other still has bytes coming
+		x, y := cs, ss
+		if k == 5 {
+			x, y = ss, cs
+		}
+		flag := new(bool)
+		x.hungUp, y.peerHungUp = flag, flag
+		x.hangUpWhen = func() bool { return x.wrDone && y.wrDone && x.gotIn == x.expectIn }
+		c.Info["hangs_up_when_done"] = x.name
+	}
 	cs.rdDeadlineMs = []int{0, 0, 0, 1, 20, 300}[t.Draw("c.rddl", 6)]
 	ss.rdDeadlineMs = []int{0, 0, 0, 1, 20, 300}[t.Draw("s.rddl", 6)]
 	c.Info["client_read_deadline_ms"], c.Info["server_read_deadline_ms"] = cs.rdDeadlineMs, ss.rdDeadlineMs
